@@ -78,6 +78,7 @@ pub fn stages(prop: &str, tier: &str) -> Vec<Stage> {
             Book::B7,
             Book::B8,
             Book::B11,
+            Book::B12,
         ];
         let mut wide = alpha.clone();
         wide.extend([
@@ -89,9 +90,10 @@ pub fn stages(prop: &str, tier: &str) -> Vec<Stage> {
             COp::MoveVia(2, 1),
             COp::AmendVia(1, 1, 2),
             COp::AmendVia(2, 1, 8),
+            COp::Cancel(3),
         ]);
         if quick {
-            v.push(stage("pairs of 1-op threads, wide alphabet, nine books", programs_1op(2, &books6, &wide), Some(3)));
+            v.push(stage("pairs of 1-op threads, wide alphabet, ten books", programs_1op(2, &books6, &wide), Some(3)));
             v.push(stage("triples of 1-op threads, books B1-B5", programs_1op(3, &books5, &alpha), Some(2)));
             v.push(stage("pairs of 2-op threads, reduced alphabet, B1-B4", programs_2x2(&BOOKS4, &small), Some(2)));
             v.push(stage("pairs of 1-op threads on a 70-order book", programs_1op(2, &[Book::B9, Book::B10], &big), Some(1)));
@@ -101,9 +103,9 @@ pub fn stages(prop: &str, tier: &str) -> Vec<Stage> {
             // (an order that can give nothing), a second price move
             // no bound at all where that is feasible (short programs), bound 5 for the long sweeps
             let (short, long) = split_by_length(programs_1op(2, &books6, &wide), 34);
-            v.push(stage("pairs of 1-op threads, wide alphabet, nine books, programs of <= 34 steps, unbounded", short, None));
-            v.push(stage("pairs of 1-op threads, wide alphabet, nine books, longer programs, bound 5", long, Some(5)));
-            v.push(stage("triples of 1-op threads, nine books", programs_1op(3, &books6, &alpha), Some(3)));
+            v.push(stage("pairs of 1-op threads, wide alphabet, ten books, programs of <= 34 steps, unbounded", short, None));
+            v.push(stage("pairs of 1-op threads, wide alphabet, ten books, longer programs, bound 5", long, Some(5)));
+            v.push(stage("triples of 1-op threads, ten books", programs_1op(3, &books6, &alpha), Some(3)));
             v.push(stage("triples of 1-op threads, reduced alphabet, B1-B4, bound 4", programs_1op(3, &BOOKS4, &small), Some(4)));
             v.push(stage("pairs of 2-op threads, full alphabet, B1-B4", programs_2x2(&BOOKS4, &alpha), Some(3)));
             v.push(stage("quadruples of 1-op threads, reduced alphabet, B1-B4", programs_1op(4, &BOOKS4, &small), Some(2)));
@@ -149,7 +151,8 @@ pub fn stages(prop: &str, tier: &str) -> Vec<Stage> {
         "C14" => {
             // matches sharing one generator: the counter is a scheduling point
             let matchy = vec![COp::Match(2), COp::Match(4), COp::Match(20), COp::Add, COp::Cancel(2)];
-            let mut a = stage("pairs of 1-op threads with matches, all books", filter(programs_1op(2, &books5, &matchy), |o| matches!(o, COp::Match(_))), Some(if quick { 3 } else { 4 }));
+            let books_c14 = [Book::B1, Book::B2, Book::B3, Book::B4, Book::B5, Book::B8, Book::B12];
+            let mut a = stage("pairs of 1-op threads with matches, seven books (incl. dormant orders)", filter(programs_1op(2, &books_c14, &matchy), |o| matches!(o, COp::Match(_))), Some(if quick { 3 } else { 4 }));
             a.exec = exec_cfg(false, true);
             a.want_c14 = true;
             let mut b = stage("triples of 1-op threads with matches, B1-B4", filter(programs_1op(3, &BOOKS4, &matchy), |o| matches!(o, COp::Match(_))), Some(if quick { 2 } else { 3 }));
@@ -364,6 +367,17 @@ pub fn run_into(report: &mut Report, prop: &str, tier: &str, share: f64) {
             report.violation(m.clone(), json!({"engine": "sched-generator", "message": m}));
         }
     }
+    if prop == "C15" {
+        let (n, sched_n, msgs, smp) = c15_stats_programs(tier, cap);
+        tot_exec += sched_n;
+        tot_prog += n;
+        samples.extend(smp);
+        runs.push(json!({"family": "record_execution / record_order_added / record_order_removed from 2-3 threads on one statistics object, all interleavings", "programs": n, "schedules": sched_n, "preemption_bound": Value::Null}));
+        println!("  [C15] statistics programs={n} schedules={sched_n}");
+        for m in msgs {
+            report.violation(m.clone(), json!({"engine": "sched-stats", "message": m}));
+        }
+    }
     if prop == "C08" {
         let (n, sched_n, msgs, smp) = c08_queue(tier, cap);
         tot_exec += sched_n;
@@ -451,13 +465,17 @@ fn c14_generator(tier: &str, cap: Duration) -> (u64, u64, Vec<String>, Vec<Value
     let namespaces = [NS, Uuid::nil(), Uuid::from_u128(u128::MAX)];
     let results: Vec<(u64, u64, Vec<String>, Value)> = std::thread::scope(|sc| {
         let mut hs = vec![];
-        let mut all_shapes: Vec<(usize, usize, usize)> = shapes.iter().map(|(k, n)| (*k, *n, *n)).collect();
+        let mut all_shapes: Vec<(usize, usize, usize, bool)> = shapes.iter().map(|(k, n)| (*k, *n, *n, false)).collect();
         for m in &asym {
-            all_shapes.push((2, 1, *m));
+            all_shapes.push((2, 1, *m, false));
         }
-        for (k, n_first, n) in all_shapes.iter().copied() {
+        // "victim" programs: thread 0 fine-grained, the others scheduled only between their calls
+        for (k, a, b) in [(2usize, 1usize, 12usize), (2, 1, 24), (2, 2, 16), (3, 1, 8)] {
+            all_shapes.push((k, a, b, true));
+        }
+        for (k, n_first, n, victim) in all_shapes.iter().copied() {
             for ns in namespaces {
-                if n_first != n && ns != NS {
+                if (n_first != n || victim) && ns != NS {
                     continue;
                 }
                 hs.push(sc.spawn(move || {
@@ -471,7 +489,13 @@ fn c14_generator(tier: &str, cap: Duration) -> (u64, u64, Vec<String>, Vec<Value
                             let got = got.clone();
                             let n = if t == 0 { n_first } else { n };
                             bodies.push(Box::new(move || {
+                                if victim && t != 0 {
+                                    sched::set_coarse(t, true);
+                                }
                                 for _ in 0..n {
+                                    if victim && t != 0 {
+                                        sched::yield_point();
+                                    }
                                     let id = g.next();
                                     got.borrow_mut().push(id);
                                 }
@@ -503,7 +527,7 @@ fn c14_generator(tier: &str, cap: Duration) -> (u64, u64, Vec<String>, Vec<Value
                     };
                     let (cnt, msgs) = explore_simple(&make, cap);
                     sched::uninstall_hook();
-                    (1u64, cnt, msgs, json!({"threads": k, "calls_first_thread": n_first, "calls_per_other_thread": n, "namespace": ns.to_string(), "schedules": cnt}))
+                    (1u64, cnt, msgs, json!({"threads": k, "calls_first_thread": n_first, "calls_per_other_thread": n, "other_threads_call_atomic": victim, "namespace": ns.to_string(), "schedules": cnt}))
                 }));
             }
         }
@@ -811,6 +835,7 @@ impl ProgramDe {
             "B9" => Book::B9,
             "B10" => Book::B10,
             "B11" => Book::B11,
+            "B12" => Book::B12,
             _ => Book::B5,
         };
         let op = |v: &Value| -> COp {
@@ -908,4 +933,112 @@ pub fn validate_scheduler(rounds: usize) -> i32 {
     }
     println!("validate-sched: {} programs, {} real executions, {} distinct real outcomes, all inside the {} explored outcomes: {}", programs.len(), total_real, seen_real, explored, bad == 0);
     if bad == 0 { 0 } else { 2 }
+}
+
+
+/// C15, statistics object on its own: k threads call `record_execution` / `record_order_added` / `record_order_removed`
+/// on one shared `PriceLevelStatistics` (the level's own), every interleaving of the counter steps, no bound.
+pub fn c15_stats_programs(tier: &str, cap: Duration) -> (u64, u64, Vec<String>, Vec<Value>) {
+    use pricelevel::PriceLevel;
+    let shapes: Vec<(usize, usize)> = if tier == "quick" {
+        vec![(1, 1), (1, 2), (2, 2), (1, 4), (1, 5)]
+    } else {
+        vec![(1, 1), (1, 2), (2, 2), (1, 4), (1, 5), (1, 6), (2, 3)]
+    };
+    // "victim" programs: thread 0 is scheduled at every counter step, the other thread(s) only between their calls -
+    // a thread that keeps losing a race against many complete calls of the others (cheap: few interleavings)
+    let victim_shapes: Vec<(usize, usize, usize)> = if tier == "quick" {
+        vec![(2, 1, 6), (2, 1, 12), (3, 1, 4), (2, 2, 8)]
+    } else {
+        vec![(2, 1, 6), (2, 1, 12), (2, 1, 24), (3, 1, 4), (3, 1, 8), (2, 2, 8), (2, 3, 12)]
+    };
+    let mut all: Vec<(usize, usize, usize, bool)> = vec![];
+    for (n_first, n_other) in shapes.iter().copied() {
+        for k in [2usize, 3] {
+            if k == 3 && n_first + 2 * n_other > 5 {
+                continue;
+            }
+            all.push((k, n_first, n_other, false));
+        }
+    }
+    for (k, a, b) in victim_shapes {
+        all.push((k, a, b, true));
+    }
+    let results: Vec<(u64, Vec<String>, Value)> = std::thread::scope(|sc| {
+        let mut hs = vec![];
+        for (k, n_first, n_other, victim) in all.iter().copied() {
+            {
+                hs.push(sc.spawn(move || {
+                    sched::install_hook();
+                    let make = move || {
+                        let level = Rc::new(PriceLevel::new(LEVEL_PRICE));
+                        let mut bodies: Vec<Box<dyn FnOnce()>> = vec![];
+                        let mut calls = 0u64;
+                        let mut qty = 0u64;
+                        for t in 0..k {
+                            let level = level.clone();
+                            let n = if t == 0 { n_first } else { n_other };
+                            for i in 0..n {
+                                calls += 1;
+                                qty += (t * 10 + i + 1) as u64;
+                            }
+                            bodies.push(Box::new(move || {
+                                let st = level.stats();
+                                if victim && t != 0 {
+                                    sched::set_coarse(t, true);
+                                }
+                                for i in 0..n {
+                                    if victim && t != 0 {
+                                        sched::yield_point();
+                                    }
+                                    st.record_execution((t * 10 + i + 1) as u64, LEVEL_PRICE, 1);
+                                    if i == 0 {
+                                        st.record_order_added();
+                                        st.record_order_removed();
+                                    }
+                                }
+                            }));
+                        }
+                        let check: Box<dyn FnOnce() -> Vec<String>> = Box::new(move || {
+                            sched::as_harness(false, || {
+                                let st = level.stats();
+                                let mut m = vec![];
+                                if st.orders_executed() as u64 != calls
+                                    || st.quantity_executed() != qty
+                                    || st.value_executed() != qty * LEVEL_PRICE
+                                    || st.orders_added() != k
+                                    || st.orders_removed() != k
+                                {
+                                    m.push(format!(
+                                        "C15 statistics after {calls} recorded executions from {k} threads: executed={} qty={} value={} added={} removed={} (expected {calls}, {qty}, {}, {k}, {k})",
+                                        st.orders_executed(), st.quantity_executed(), st.value_executed(), st.orders_added(), st.orders_removed(), qty * LEVEL_PRICE
+                                    ));
+                                }
+                                m
+                            })
+                        });
+                        (bodies, check)
+                    };
+                    let (cnt, msgs) = explore_simple(&make, cap);
+                    sched::uninstall_hook();
+                    (cnt, msgs, json!({"statistics_program": {"threads": k, "calls_first_thread": n_first, "calls_other_threads": n_other, "other_threads_call_atomic": victim, "schedules": cnt}}))
+                }));
+            }
+        }
+        hs.into_iter().map(|h| h.join().unwrap()).collect()
+    });
+    let mut scheds = 0;
+    let mut msgs = vec![];
+    let mut smp = vec![];
+    let n = results.len() as u64;
+    for (s, m, v) in results {
+        scheds += s;
+        msgs.extend(m);
+        if smp.len() < 3 {
+            smp.push(v);
+        }
+    }
+    msgs.sort();
+    msgs.dedup();
+    (n, scheds, msgs, smp)
 }
